@@ -30,6 +30,10 @@ def parseEvents (arr : Array Json) : Except String (List EventH) := do
         match vs with
         | [v] => out := out ++ [.assign p (.plain v) false]
         | _ => throw "plain needs one value"
+      | "sync" =>
+        match vs with
+        | [v] => out := out ++ [.assignSync p v]
+        | _ => throw "sync needs one value"
       | s => throw s!"unknown src {s}"
     | "tick" => out := out ++ [.tick]
     | "bump" => out := out ++ [.bump]
@@ -55,8 +59,12 @@ def parseObs (j : Json) : Except String ObsH := do
     let q ← p.getArr?
     if q.size != 3 then throw "triple expected"
     return (← q[0]!.getNat?, ← q[1]!.getNat?, ← q[2]!.getNat?)
+  let errs ← match getOpt j "errs" with
+    | some a => (← a.getArr?).toList.mapM (·.getStr?)
+    | none => pure []
   return { vals := ← ints (← j.getObjVal? "vals"), async := ← nats (← j.getObjVal? "async"),
-           sync := ← nats (← j.getObjVal? "sync"), refs := ← nats (← j.getObjVal? "refs"), log := log, spawns := spawns }
+           sync := ← nats (← j.getObjVal? "sync"), refs := ← nats (← j.getObjVal? "refs"), log := log, spawns := spawns,
+           errs := errs }
 
 def jObs (o : ObsH) : Json := Json.mkObj [
   ("vals", Json.arr (o.vals.map toJson).toArray), ("async", Json.arr (o.async.map toJson).toArray),
@@ -152,12 +160,19 @@ def eventLabels (c : Cfg) (e : Env) (sh : StH) : EventH → List String
   | .trigP p =>
     [if (sh.core.asyncRefs p).isSome then "trigger:linked-parameter:cancels-registered"
      else if (sh.core.refs p).isSome then "trigger:linked-parameter:unlinks" else "trigger:plain-parameter"]
+  | .assignSync p _ =>
+    [if (sh.core.asyncRefs p).isSome then "assign:sync-reference:cancels-registered"
+     else if (sh.core.refs p).isSome then "assign:sync-reference:replaces-link" else "assign:sync-reference"] ++
+    (match e.hook with | some (a, _, _) => if p = a then ["hook:on-driver-assignment"] else [] | none => [])
   | .bump =>
     let n := (bumpH sh).core.nTasks - sh.core.nTasks
     [if n = 0 then "bump:no-dependent-reference" else s!"bump:reschedules-{n}"] ++
     (if n > 0 && sh.keys.any (fun p => (sh.core.asyncRefs p).isSome) then ["bump:while-task-registered"] else []) ++
     (if n > 0 && sh.keys.any (fun p => match sh.core.refs p with | some r => !sh.deps.contains r | none => false)
-     then ["bump:also-reschedules-independent-reference"] else [])
+     then ["bump:also-reschedules-independent-reference"] else []) ++
+    (if n > 0 && sh.keys.any (fun p => sh.core.refs p == some syncRef) then
+       [if (sh.keys.head?.bind sh.core.refs) == some syncRef then "bump:steps-over-sync-reference-first-in-refs"
+        else "bump:steps-over-sync-reference"] else [])
 
 def optJ : Option String → Json
   | some s => Json.str s
@@ -172,6 +187,7 @@ def coreEvent : EventH → Option Event
   | .again _ => none
   | .trigC => none
   | .trigP _ => none
+  | .assignSync _ _ => none
 
 def handleParam (case impl : Json) : Except String Json := do
   let np ← getNat case "np"
